@@ -75,7 +75,7 @@ def _list_case_inner(rng, lsb0):
         a = Array(dt, vals, trailing_bits=trailing or None)
         w = a.itemsize
         model = list(vals)
-        op = rng.choice(['slice', 'setslice', 'setslice_array', 'routes', 'extend_routes', 'delslice', 'reverse', 'tolist', 'iter', 'count', 'equals', 'copy', 'extend', 'insert', 'pop', 'len', 'dtype'])
+        op = rng.choice(['slice', 'setslice', 'setslice_array', 'setslice_self', 'routes', 'extend_routes', 'delslice', 'reverse', 'tolist', 'iter', 'count', 'equals', 'copy', 'extend', 'insert', 'pop', 'len', 'dtype'])
         if lsb0 and op == 'len':
             op = 'tolist'        # (the data-layout clause of 'len' is stated for msb0)
         desc = f'Array({dt!r}, {vals!r}, trailing_bits={trailing!r}).{op}'
@@ -95,6 +95,21 @@ def _list_case_inner(rng, lsb0):
                 exp = ValueError
             try:
                 a[k] = new
+                ok = exp is not ValueError and a.tolist() == exp and a.trailing_bits.bin == tb
+            except ValueError:
+                ok = exp is ValueError and a.tolist() == list(vals)
+        elif op == 'setslice_self':
+            # the assigned value is the Array itself (or an iterator over it): a list takes a snapshot of the right-hand side first
+            k = slice(rng.choice([None, None, rng.randint(-9, 9)]), rng.choice([None, None, rng.randint(-9, 9)]), rng.choice([None, 1, -1, -1, 2]))
+            how = rng.choice(['a', 'iter(a)', 'reversed(a.tolist())'])
+            desc += f'[{k}] = {how}'
+            try:
+                model[k] = {'a': model, 'iter(a)': iter(model), 'reversed(a.tolist())': reversed(list(model))}[how]
+                exp = model
+            except ValueError:
+                exp = ValueError
+            try:
+                a[k] = {'a': a, 'iter(a)': iter(a), 'reversed(a.tolist())': reversed(a.tolist())}[how]
                 ok = exp is not ValueError and a.tolist() == exp and a.trailing_bits.bin == tb
             except ValueError:
                 ok = exp is ValueError and a.tolist() == list(vals)
@@ -179,6 +194,10 @@ def _list_case_inner(rng, lsb0):
             ok = list(a) == model
         elif op == 'count':
             v = gen()
+            if isinstance(v, int) and rng.random() < 0.3:
+                # any value may be asked for, not only representable ones: a list simply counts no match
+                v = rng.choice([-1, 1 << 70, 10 ** 400, -(10 ** 400), 1 << 1999, True, 2.5])
+            desc += f'({v!r})'
             ok = a.count(v) == model.count(v)
         elif op == 'equals':
             ok = a.equals(Array(dt, vals, trailing_bits=trailing or None)) and not a.equals(Array(dt, vals + [gen()], trailing_bits=trailing or None))
